@@ -15,7 +15,7 @@ Rules
 Not decided: PSD preservation numerically, ellipse reconstruction to rounding, composition of transforms numerically."""
 import math
 import sympy as sp
-from .. import sym, mat
+from .. import sym, mat, alg
 from ..tree import const_value, sx, walk, pp, strip_casts, short_fn
 from .C20 import deep_unwrap
 from .C14 import stmts_sx
@@ -142,6 +142,13 @@ def out_param_state(fx, f, in_value, hook=mat.hook):
     return (sts[0].callee_locals or {}).get(f['params'][1]['id'])
 
 
+def out_param_states(fx, f, in_value, hook=mat.hook):
+    """Every path of a `void f(const In &, Out &)` conversion: [(final value of the output parameter, path state)]."""
+    rd = reader(fx, hook)
+    sts = rd.run(f, args=[in_value, {}])
+    return [((s_.callee_locals or {}).get(f['params'][1]['id']), s_) for s_ in sts]
+
+
 def sel_hook(rd, e, st, ctx):
     if e.get('k') == 'Call' and 'toSe2Covariance' in (e.get('fn') or ''):
         return [(sp.Function('toSe2Covariance')(sp.Symbol(str(id(vals[0])))) if False else ('toSe2Covariance', vals[0]), s2) for (vals, s2) in rd.evs(e['args'], st, ctx)]
@@ -169,7 +176,55 @@ def check_routing(fx, R):
             R.undecided('K2', fname, str(u))
             continue
         if not isinstance(got, dict):
-            R.undecided('K2', fname, 'output parameter not readable: %s' % (got,))
+            # the conversion forks: every path is judged, a scalar that does not reduce is evaluated on witness components satisfying the path conditions
+            try:
+                multi = out_param_states(fx, f, inval)
+            except sym.Unsupported as u:
+                multi = []
+            if len(multi) < 2 or not all(isinstance(g_, dict) for (g_, _s) in multi):
+                R.undecided('K2', fname, 'output parameter not readable: %s' % (got,))
+                continue
+            verdict = None
+            for (g_, s_) in multi:
+                desc = ' && '.join(('' if c[2] else '!') + '(' + c[0] + ')' for c in s_.cond)
+                for k_, w_ in want.items():
+                    v_ = g_.get(k_)
+                    if isinstance(w_, list):
+                        if not (isinstance(v_, sp.MatrixBase) and v_.shape[0] >= len(w_)):
+                            verdict = verdict or ('undecided', 'component %s not readable on the path [%s]' % (k_, desc))
+                            continue
+                        pairs = [(v_[i, 0], w_[i]) for i in range(len(w_))]
+                    elif isinstance(w_, sp.MatrixBase):
+                        if not (isinstance(v_, sp.MatrixBase) and v_.shape == w_.shape):
+                            verdict = verdict or ('undecided', 'component %s not readable on the path [%s]' % (k_, desc))
+                            continue
+                        pairs = list(zip(list(sp.Matrix(v_)), list(sp.Matrix(w_))))
+                    else:
+                        if not isinstance(v_, sp.Basic):
+                            verdict = verdict or ('undecided', 'component %s not readable on the path [%s]' % (k_, desc))
+                            continue
+                        pairs = [(v_, w_)]
+                    for (a_, b_) in pairs:
+                        if a_ == b_ or sp.simplify(alg.interpret(a_ - b_)) == 0:
+                            continue
+                        conds = [(c[1], c[2]) for c in s_.cond if isinstance(c[1], sp.Basic)]
+                        r_ = alg.decide_zero_on_path(a_ - b_, conds, tries=60, domain=lambda y: (-700, 700))
+                        if r_[0] == 'nonzero':
+                            verdict = ('violated', 'on the path [%s] the planar %s is %s, not the %s component %s of the 3D quantity: %s (the reduction keeps exactly the planar components)' % (
+                                desc, k_, str(a_)[:160], k_, b_, alg.witness_text(r_[1]) if len(r_) > 1 else ''))
+                            break
+                        elif r_[0] != 'zero':
+                            verdict = verdict or ('undecided', 'component %s = %s on the path [%s] not decided' % (k_, str(a_)[:120], desc))
+                    if verdict and verdict[0] == 'violated':
+                        break
+                if verdict and verdict[0] == 'violated':
+                    break
+            if verdict is None:
+                R.holds('K2', fname, 'keeps %s on each of its %d paths' % (what, len(multi)), fx.rel(f['loc']), 'E-ALG')
+            elif verdict[0] == 'violated':
+                R.violated('K2', fname + ':value', verdict[1], fx.rel(f['loc']), 'E-ALG')
+            else:
+                R.undecided('K2', fname, verdict[1])
             continue
         bad = []
         for k, w in want.items():
